@@ -211,7 +211,9 @@ fn place_men(p: &mut Pos, men: &[Man], i: usize, min_sq: u8, f: &mut dyn FnMut(&
 /// pawn has just double-stepped to (f,4); one or two white capturers beside it; both kings anywhere;
 /// plus one extra man of either colour anywhere. `restrict_king`: the white king only on lines
 /// (rank, file, diagonal) through the capturer, the pushed pawn or the target square.
-pub fn enumerate_ep(f_pushed: i32, extra: Option<Man>, restrict_king: bool, cb: &mut dyn FnMut(&Pos)) {
+/// `restrict_bk`: the other king and the further man, too, only on lines through those squares (where a discovered
+/// check can come from).
+pub fn enumerate_ep(f_pushed: i32, extra: Option<Man>, restrict_king: bool, restrict_bk: bool, cb: &mut dyn FnMut(&Pos)) {
     for cap_mask in 1..4 {
         let mut base = Pos::empty();
         base.board[sq(f_pushed, 4) as usize] = Some((Color::B, Kind::P));
@@ -235,26 +237,29 @@ pub fn enumerate_ep(f_pushed: i32, extra: Option<Man>, restrict_king: bool, cb: 
             if base.board[wk as usize].is_some() || wk == target || wk == origin {
                 continue;
             }
-            if restrict_king {
-                let mut pts = interesting.clone();
-                for df in [-1, 1] {
-                    if rc::on_board(f_pushed + df, 4) {
-                        pts.push(sq(f_pushed + df, 4));
-                    }
+            let mut pts = interesting.clone();
+            for df in [-1, 1] {
+                if rc::on_board(f_pushed + df, 4) {
+                    pts.push(sq(f_pushed + df, 4));
                 }
-                let on_line = pts.iter().any(|&t| {
-                    let (df, dr) = (rc::file_of(t) - rc::file_of(wk), rc::rank_of(t) - rc::rank_of(wk));
+            }
+            let on_line = |k: u8| {
+                pts.iter().any(|&t| {
+                    let (df, dr) = (rc::file_of(t) - rc::file_of(k), rc::rank_of(t) - rc::rank_of(k));
                     df == 0 || dr == 0 || df.abs() == dr.abs()
-                });
-                if !on_line {
-                    continue;
-                }
+                })
+            };
+            if restrict_king && !on_line(wk) {
+                continue;
             }
             for bk in 0..64u8 {
                 if base.board[bk as usize].is_some() || bk == wk || bk == target || bk == origin {
                     continue;
                 }
                 if (rc::file_of(bk) - rc::file_of(wk)).abs() <= 1 && (rc::rank_of(bk) - rc::rank_of(wk)).abs() <= 1 {
+                    continue;
+                }
+                if restrict_bk && !on_line(bk) {
                     continue;
                 }
                 let mut p = base.clone();
@@ -273,6 +278,10 @@ pub fn enumerate_ep(f_pushed: i32, extra: Option<Man>, restrict_king: bool, cb: 
                     Some(m) => {
                         for s in 0..64u8 {
                             if p.board[s as usize].is_some() || s == target || s == origin || !pawn_ok(m, s) {
+                                continue;
+                            }
+                            // (in the doubly restricted variant the further man, too, stands on such a line)
+                            if restrict_bk && !on_line(s) {
                                 continue;
                             }
                             p.board[s as usize] = Some(m);
